@@ -1,11 +1,12 @@
 """C05 - ancestry lookup returns the covering block's label; .bp files round-trip.
 
 Relations (haptools/data/breakpoints.py)
-  find   : Breakpoints._find_blocks on ascending end arrays
+  find   : Breakpoints._find_blocks on end arrays (ascending, and - compared with numpy's bisection only - not)
   lookup : Breakpoints.population_array on constructed tables (strings interned)
   codec  : encode(labels) -> population_array -> encode again -> recode -> recode again
   read   : Breakpoints.read(samples) on generated files, token/character level
   write  : Breakpoints.write() then Breakpoints.load() of the written file
+  flookup: a file with labels / chromosome names of any length -> Breakpoints.read -> population_array, on characters
 """
 import itertools
 import os
@@ -20,34 +21,73 @@ from .core import Relation, err_kind
 
 PROP = "C05"
 CLAIMED = True
-COQ_MODULES = ["C05_Check", "C05_Proofs", "C05_ProofsCodec", "C05_ProofsText"]
+COQ_MODULES = ["C05_Check", "C05_Proofs", "C05_ProofsNp", "C05_ProofsCodec", "C05_ProofsText", "C05_ProofsFile"]
 PROPERTY_MODULE = "C05_Property"
 ALLOWED_AXIOMS = []
 RULE = (
     "find/lookup/codec: tables of 1-5 samples x 1-3 chromosomes (plain, chr-prefixed, X) x 1-6 blocks per strand and "
     "chromosome with ends from a small grid (collisions with the queries are frequent), labels of 1-6 characters; queries "
     "on every block end, end+1, 1, 0, beyond the last block, on an absent chromosome; sample requests: none, permuted, "
-    "partial, unknown, repeated, empty; every order/sub-/superset of the labels for the encoder. Non-trivial = at least "
-    "one query on a block end or end+1 of a strand with >= 2 blocks on that chromosome (find: >= 2 ends and a position "
-    "equal to an end or end+1). read/write: generated .bp text incl. comment lines, malformed headers, wrong field "
-    "counts, bad int/float tokens, underscores in names, .gz; non-trivial = >= 2 samples or a sample name with an "
-    "underscore. Distinct = distinct canonical JSON."
+    "partial, unknown, repeated, empty; every order/sub-/superset of the labels for the encoder. Width-boundary streams "
+    "(every run): 255/256/257 blocks on a strand, 127..1001 ends, ends and positions at 2^31-1, 2^31, 2^32-1, positions "
+    "beyond uint32 in int64/uint64 arrays, 255/256/257/258 distinct labels (given + present) for np.uint8 codes. 6-12 % "
+    "of the find/lookup/codec tables have block ends that are not ascending (compared with numpy's bisection only). "
+    "Non-trivial = at least one query on a block end or end+1 of a strand with >= 2 blocks on that chromosome (find: >= 2 "
+    "ends and a position equal to an end or end+1). read/write: generated .bp text incl. comment lines, malformed "
+    "headers, wrong field counts, bad int/float tokens, underscores in names, .gz; non-trivial = >= 2 samples or a sample "
+    "name with an underscore. flookup: harness-written files whose labels / chromosome names keep their full length "
+    "(<= 6 / <= 10 characters, 7-8 character labels, 11-23 character contig names, pairs of contigs equal in their first "
+    "10 characters, a position uint32 cannot hold), read and queried through 'U10' and 'U32' variant arrays; non-trivial "
+    "as for lookup. Distinct = distinct canonical JSON."
 )
 TRUSTED = [
-    "np.searchsorted(side='left') on an ascending array = index of the first element >= p (model: linear scan; exercised by relation find)",
+    "np.searchsorted(side='left') = the branch-free bisection C05_Model.np_search (numpy 2.x; compared with "
+    "Breakpoints._find_blocks on sorted and unsorted arrays by relation find on every run); that it is the first index "
+    "with end >= p on ascending input is a theorem (C05_np_search_is_first_ge), no longer a contract",
     "numpy str->uint32/float64 conversion and str() of numpy scalars are codec tables recorded from numpy per case "
     "(theorems: Section variables with parse(fmt x) = x)",
     "csv.reader/csv.writer with tab delimiter = split/join on tab for tokens without tab, quote, CR, LF",
-    "labels, chromosome and sample names are interned to integers at the lookup level (only compared by the code)",
+    "labels, chromosome and sample names are interned to integers at the lookup level (only compared by the code); in "
+    "relation flookup they are characters and the interning (position in the list of all strings of the case, "
+    "C05_index_of_inj) happens inside Coq after the reader model",
     "dict iteration order = insertion order (CPython >= 3.7)",
+    "assigning a Python int > 255 to an np.uint8 field raises OverflowError (numpy >= 2; modelled, observed in codec)",
 ]
 ASSUMPTIONS = [
-    "block ends of a strand are ascending within a chromosome (documented file format; np.searchsorted's precondition)",
-    "codec: distinct given labels, every strand has >= 1 block (np.vectorize refuses size-0 input), < 256 labels",
+    "block ends of a strand are ascending within a chromosome (docs/formats/breakpoints.rst: 'sorted according to chrom, "
+    "bp'; np.searchsorted's precondition): tables outside it are compared with the model only (C05_np_search_unsorted_differs)",
+    "codec: distinct given labels, every strand has >= 1 block (np.vectorize refuses size-0 input: C05_recode_empty_strand); "
+    "up to 256 distinct labels (given + present) encode must succeed, beyond them it may raise OverflowError but may not "
+    "wrap codes silently",
     "write/read round trip: distinct sample names; no sample name or label starts with '#'; tokens free of tab/quote/newline",
+    "file lookup: labels <= 6 characters (the property's quantifier), positions <= 2^32-1, and - while STRICT_FIELD_WIDTH "
+    "is off - chromosome names <= 10 characters (longer ones are silently truncated by the unrepaired reader: "
+    "fixes/C05_field_width.patch, corpus/C05/flookup_long_chrom_collision.json)",
+    "a request that repeats a sample is answered with one row per distinct sample (C05_population_array_repeated_request); "
+    "the property speaks of subsets and orders only, holds does not judge such requests",
 ]
 
+# Switch for the integrator.  Breakpoints.__iter__ hands the tokens of a block line to
+# np.array(..., dtype=HapBlock), whose 'U6' / 'U10' fields silently truncate a longer label / chromosome name.  Two
+# contigs that share their first 10 characters (GRCh38: chr1_KI270706v1_random, chr1_KI270707v1_random) are thereby
+# merged into one chromosome, and population_array answers a query with a block of the other contig (or, for a query
+# array wider than 'U10', refuses a chromosome the file has) - the property's "label of the first block ... on that
+# chromosome" / "a chromosome the strand lacks is rejected with an error" fails.  Witness:
+# corpus/C05/flookup_long_chrom_collision.json; Coq: C05_legacy_long_chrom_collision_refuted.
+# False = the tree before fix 0bcb215: the model truncates (C05_Model.conv_blk, strict = false), relation flookup
+#   judges only files whose chromosome names fit 10 characters, longer ones are compared with the model only.
+# True (default since fix 0bcb215) = the tree with fixes/C05_field_width.patch: a block line whose label has more than 6 or whose chromosome
+#   name has more than 10 characters raises ValueError in __iter__ (model: strict = true,
+#   C05_strict_refuses_long_fields) and flookup judges files with chromosome names of any length: an answer must be
+#   the covering block's label on the FULL name, a refusal is accepted.  On the unrepaired tree the switch makes
+#   ./check report  VIOLATION property=C05 ... signature "file lookup answers chromosome-name-longer-than-10=True ...".
+# Also settable with HV_C05_STRICT_FIELD_WIDTH=1.
+STRICT_FIELD_WIDTH = os.environ.get("HV_C05_STRICT_FIELD_WIDTH", "1") == "1"
+
 LABELS = ["YRI", "CEU", "ASW", "A", "AB_CDE", "pop123", "x", "Nat_1"]
+LONG_LABELS = ["African", "European", "AfricanA", "AfricanB"]
+LONG_CHROMS = ["chr1_KI270706v1_random", "chr1_KI270707v1_random", "chr22_KI270731v1_random", "chrUn_KI270302v1",
+               "12345678901", "1234567890"]
 CHROMS = ["1", "2", "chr1", "chr2", "X", "chrX", "chr10", "22", "chr22_KI27"]
 NAMES = ["HG00096", "S_1", "a_b_c", "Sample_1", "x", "NA_2_1", "s1", "T_", "_u"]
 GRID = [1, 2, 3, 5, 8, 9, 10, 11, 20, 21, 22, 30, 40, 41, 50]
@@ -64,15 +104,23 @@ def bits_f(b):
 
 
 class Intern:
-    """string -> small integer; 'None' (what recode renders for an unknown code) is -1."""
+    """string -> integer >= 300 (disjoint from the np.uint8 codes, which share the "pop" field with the labels in
+    a half-encoded table); 'None' (what recode renders for an unknown code) is -1."""
 
     def __init__(self):
         self.tab = {"None": -1}
+        self.n_lab = 0
+        self.n_chrom = 0
 
     def __call__(self, s):
         s = str(s)
         if s not in self.tab:
-            self.tab[s] = len(self.tab) - 1
+            if s.startswith("c:"):  # chromosome names live in another field: small numbers
+                self.tab[s] = self.n_chrom
+                self.n_chrom += 1
+            else:
+                self.tab[s] = 300 + self.n_lab
+                self.n_lab += 1
         return self.tab[s]
 
 
@@ -199,8 +247,64 @@ def build_bp(tbl, d, via_file=False):
     return bp
 
 
-def variants_array(qs):
-    return np.array([(c, p) for c, p in qs], dtype=[("chrom", "U10"), ("pos", np.uint32)])
+def variants_array(qs, pos_dtype="uint32", chrom_dtype="U10"):
+    return np.array([(c, p) for c, p in qs], dtype=[("chrom", chrom_dtype), ("pos", np.dtype(pos_dtype))])
+
+
+def ascending_table(tbl):
+    for _, s0, s1 in tbl:
+        for st in (s0, s1):
+            per = {}
+            for b in st:
+                per.setdefault(b[1], []).append(b[2])
+            if any(es != sorted(es) for es in per.values()):
+                return False
+    return True
+
+
+def shuffle_strand(rng, tbl):
+    """block ends of one strand no longer ascending (outside the documented format: agree only)."""
+    j = int(rng.integers(0, len(tbl)))
+    t = 1 + int(rng.integers(0, 2))
+    st = tbl[j][t]
+    if len(st) >= 2:
+        ends = [b[2] for b in st]
+        perm = rng.permutation(len(st))
+        for i, k in enumerate(perm):
+            st[i][2] = ends[int(k)]
+    return tbl
+
+
+def wide_lookup_case(rng, kind):
+    """width boundaries. 'blocks': 255 / 256 / 257 blocks on one strand and chromosome (indices past np.uint8, labels
+    past the 255th block); 'edges': ends and queries around 2**31 and 2**32 - 1; 'beyond': positions held in an int64 /
+    uint64 array beyond what uint32 holds (every strand reaches 2**32 - 1, so they are the only uncovered ones)."""
+    if kind == "blocks":
+        n = int(rng.choice([255, 256, 257]))
+        step = int(rng.choice([1, 3]))
+        s0 = [[LABELS[i % 3] if i < 254 else LABELS[3 + i % 4], "1", (i + 1) * step, 0.0] for i in range(n)]
+        s1 = [["x", "1", 2**32 - 1, 1.0]]
+        ends = [b[2] for b in s0]
+        qs = [["1", p] for p in (ends[253], ends[254], ends[254] + 1, ends[-1], ends[-1] - 1, 1, ends[127], ends[128])]
+        if rng.random() < 0.3:
+            qs.append(["1", ends[-1] + 1])
+        return {"tbl": [["s", s0, s1]], "qs": qs, "req": None, "via_file": bool(rng.random() < 0.5)}
+    edges = [2**31 - 2, 2**31 - 1, 2**31, 2**31 + 1, 2**32 - 2]
+    k = int(rng.integers(1, 5))
+    ends = sorted(set(int(e) for e in rng.choice(edges, size=k))) + [2**32 - 1]
+    s0 = [[LABELS[i % len(LABELS)], "chr1", e, float(i)] for i, e in enumerate(ends)]
+    s1 = [["YRI", "chr1", 7, 0.0], ["CEU", "chr1", 2**32 - 1, 0.5]]
+    pool = edges + [2**32 - 1] + [e + 1 for e in ends[:-1]] + [7, 8]
+    qs = [["chr1", int(p)] for p in rng.choice(pool, size=int(rng.integers(1, 5)))]
+    dt = "uint32"
+    if kind == "beyond":
+        dt = str(rng.choice(["int64", "uint64"]))
+        beyond = [["chr1", int(rng.choice([2**32, 2**32 + 1, 2**32 + 7, 2**33, 2**40]))]]
+        qs = beyond if rng.random() < 0.5 else qs[:1] + beyond
+    elif rng.random() < 0.3:
+        dt = str(rng.choice(["int64", "uint64"]))
+    return {"tbl": [["s", s0, s1], ["t", s1, s0]], "qs": qs, "req": ["t", "s"], "via_file": bool(rng.random() < 0.5),
+            "pos_dtype": dt}
 
 
 def seg_term(b, it, cmi):
@@ -271,6 +375,14 @@ def lookup_classes(tbl, qs, req):
 # ---------------------------------------------------------------------------
 
 
+def find_ends(inp):
+    """the ends array of a find input; {"upto": n, "step": s} is the compact form of [s, 2s, ..., ns]."""
+    e = inp["ends"]
+    if isinstance(e, dict):
+        return [i * e["step"] for i in range(1, e["upto"] + 1)]
+    return e
+
+
 class Find(Relation):
     name = "find"
     coq_module = "C05_Check"
@@ -298,12 +410,44 @@ class Find(Relation):
                     pos.append(int(rng.integers(0, 2)))
                 else:
                     pos.append(int(rng.choice(GRID)) + int(rng.integers(-1, 2)))
+            if rng.random() < 0.12:
+                # not ascending: outside the documented format, numpy's bisection is still deterministic (agree only)
+                ends = [int(e) for e in rng.permutation(ends)]
+                if rng.random() < 0.5:
+                    pos = [int(p) for p in rng.integers(0, 52, size=m)]
             out.append({"ends": [int(e) for e in ends], "pos": pos})
+        # width boundaries: 255 / 256 / 257 ends (index past np.uint8), keys in int64 / uint64 beyond uint32
+        for j in range(max(3, n // 400) if tier == "quick" else 45):
+            kind = ("long", "edges", "beyond")[j % 3]
+            if kind == "long":
+                k = int(rng.choice([127, 128, 255, 256, 257, 1000, 1001]))
+                step = int(rng.choice([1, 2]))
+                ends = [(i + 1) * step for i in range(k)]
+                if rng.random() < 0.3:
+                    ends = [int(e) for e in rng.permutation(ends)]
+                pos = [ends[-1], ends[-2] + 1, ends[k // 2], step * 255, step * 256, step * 256 + 1, 0]
+                if rng.random() < 0.3:
+                    pos.append(max(ends) + 1)
+                out.append({"ends": ends, "pos": pos})
+            else:
+                edges = [2**31 - 2, 2**31 - 1, 2**31, 2**31 + 1, 2**32 - 2, 2**32 - 1]
+                ends = sorted(int(e) for e in rng.choice(edges, size=int(rng.integers(1, 6))))
+                dt = str(rng.choice(["uint32", "int64", "uint64"]))
+                pos = [int(p) for p in rng.choice(edges, size=int(rng.integers(1, 6)))]
+                if kind == "beyond":
+                    dt = str(rng.choice(["int64", "uint64"]))
+                    pos = pos[: int(rng.integers(0, 2))] + [int(rng.choice([2**32, 2**32 + 1, 2**40]))]
+                out.append({"ends": ends, "pos": pos, "pos_dtype": dt})
         return out
 
     def exhaustive(self, tier):
         out = []
         pts = [2, 3, 5]
+        # every array of <= 4 elements over {2,3,5} in EVERY order (sorted or not) x every key 0..6
+        for k in range(0, 5):
+            for ends in itertools.product(pts, repeat=k):
+                if list(ends) != sorted(ends):
+                    out.append({"ends": list(ends), "pos": [0, 1, 2, 3, 4, 5, 6]})
         for k in range(0, 4):
             for ends in itertools.combinations_with_replacement(pts, k):
                 out.append({"ends": list(ends), "pos": [0, 1, 2, 3, 4, 5]})
@@ -316,7 +460,8 @@ class Find(Relation):
         from haptools.data import Breakpoints
 
         try:
-            r = Breakpoints._find_blocks(np.array(inp["ends"], dtype=np.uint32), np.array(inp["pos"], dtype=np.uint32))
+            r = Breakpoints._find_blocks(np.array(find_ends(inp), dtype=np.uint32),
+                                         np.array(inp["pos"], dtype=np.dtype(inp.get("pos_dtype", "uint32"))))
             return {"ok": [int(x) for x in r]}
         except Exception as e:  # noqa
             return {"err": err_kind(e)}
@@ -324,14 +469,19 @@ class Find(Relation):
     def encode(self, inp, obs):
         if "ok" not in obs and "err" not in obs:
             obs = {"err": obs.get("kind", 99)}
-        return f"(mkf {L.zl(inp['ends'])} {L.zl(inp['pos'])} {L.res(obs, L.zl)})"
+        e = inp["ends"]
+        ends = f"(arith_list {L.z(e['upto'])} {L.z(e['step'])})" if isinstance(e, dict) else L.zl(e)
+        return f"(mkf {ends} {L.zl(inp['pos'])} {L.res(obs, L.zl)})"
 
     def nontrivial(self, inp, obs):
-        return len(inp["ends"]) >= 2 and any(p in inp["ends"] or p - 1 in inp["ends"] for p in inp["pos"])
+        es = set(find_ends(inp))
+        return len(es) >= 2 and any(p in es or p - 1 in es for p in inp["pos"])
 
     def classes(self, inp, obs):
-        out = [f"ends={min(len(inp['ends']), 4)}"]
-        es = inp["ends"]
+        es = find_ends(inp)
+        out = [f"ends={min(len(es), 4)}"]
+        if len(es) > 65535:
+            out.append("ends>65535")
         for p in inp["pos"]:
             if p in es:
                 out.append("on-end")
@@ -341,27 +491,43 @@ class Find(Relation):
                 out.append("beyond-last")
         if len(set(es)) < len(es):
             out.append("equal-ends")
+        if es != sorted(es):
+            out.append("non-ascending")
+        if len(es) >= 255:
+            out.append("ends>=255")
+        if any(p >= 2**31 for p in inp["pos"]):
+            out.append("pos>=2^31")
+        if any(p > 2**32 - 1 for p in inp["pos"]):
+            out.append("pos>uint32")
         if isinstance(obs, dict) and "err" in obs:
             out.append(f"err{obs['err']}")
         return sorted(set(out))
 
     def shrink(self, inp):
-        for j in range(len(inp["ends"])):
-            yield dict(inp, ends=inp["ends"][:j] + inp["ends"][j + 1:])
+        if isinstance(inp["ends"], dict):
+            e = inp["ends"]
+            for n in (e["upto"] // 2, e["upto"] - 1):
+                if n >= 1:
+                    yield dict(inp, ends=dict(e, upto=n))
+        else:
+            for j in range(len(inp["ends"])):
+                yield dict(inp, ends=inp["ends"][:j] + inp["ends"][j + 1:])
         for j in range(len(inp["pos"])):
             yield dict(inp, pos=inp["pos"][:j] + inp["pos"][j + 1:])
 
     def mutate(self, inp, rng):
-        for e in inp["ends"]:
+        for e in find_ends(inp)[:40]:
             for d in (-1, 0, 1):
                 if e + d >= 0:
                     yield dict(inp, pos=[e + d])
+        for n in (257, 65537):  # index widths
+            yield {"ends": {"upto": n, "step": 1}, "pos": [1, 255, 256, 257, n - 1, n]}
 
     def signature(self, inp, obs):
-        es = inp["ends"]
+        es = find_ends(inp)
         kind = "error" if "err" in obs else "index"
         on = any(p in es for p in inp["pos"])
-        return f"_find_blocks {kind} position-on-block-end={on}"
+        return f"_find_blocks {kind} position-on-block-end={on} ends-ascending={es == sorted(es)}"
 
 
 class Lookup(Relation):
@@ -379,8 +545,12 @@ class Lookup(Relation):
         out = []
         for _ in range(n):
             tbl, chroms = gen_table(rng, malformed=0.08 if rng.random() < 0.3 else 0.0)
+            if rng.random() < 0.06:
+                tbl = shuffle_strand(rng, tbl)
             out.append({"tbl": tbl, "qs": gen_queries(rng, tbl, chroms), "req": gen_request(rng, tbl),
                         "via_file": bool(rng.random() < 0.3)})
+        for j in range(max(3, n // 230) if tier == "quick" else 45):
+            out.append(wide_lookup_case(rng, ("blocks", "edges", "beyond")[j % 3]))
         return out
 
     def exhaustive(self, tier):
@@ -405,8 +575,9 @@ class Lookup(Relation):
         try:
             bp = build_bp(inp["tbl"], d, via_file=inp.get("via_file", False))
             try:
-                arr = bp.population_array(variants_array(inp["qs"]), samples=None if inp["req"] is None else tuple(inp["req"]))
-                return {"ok": arr.tolist(), "shape": list(arr.shape)}
+                arr = bp.population_array(variants_array(inp["qs"], inp.get("pos_dtype", "uint32")),
+                                          samples=None if inp["req"] is None else tuple(inp["req"]))
+                return {"ok": arr.tolist(), "shape": list(arr.shape), "dtype": str(arr.dtype)}
             except Exception as e:  # noqa
                 return {"err": err_kind(e), "msg": str(e)[:120]}
         finally:
@@ -430,6 +601,16 @@ class Lookup(Relation):
         out = lookup_classes(inp["tbl"], inp["qs"], inp["req"])
         if inp.get("via_file"):
             out.append("loaded-from-file")
+        if not ascending_table(inp["tbl"]):
+            out.append("tbl:non-ascending")
+        if any(len(st) >= 255 for s_ in inp["tbl"] for st in s_[1:]):
+            out.append("tbl:blocks>=255")
+        if any(q[1] >= 2**31 for q in inp["qs"]):
+            out.append("q:pos>=2^31")
+        if any(q[1] > 2**32 - 1 for q in inp["qs"]):
+            out.append("q:pos>uint32")
+        if inp.get("pos_dtype", "uint32") != "uint32":
+            out.append("pos-dtype:" + inp["pos_dtype"])
         if isinstance(obs, dict) and "err" in obs:
             out.append(f"err{obs['err']}")
         return out
@@ -457,6 +638,13 @@ class Lookup(Relation):
             for b in s0 + s1:
                 for dlt in (0, 1):
                     yield dict(inp, qs=[[b[1], min(b[2] + dlt, 2**32 - 1)]])
+        tbl = inp["tbl"]
+        if tbl:  # a long strand: the answer for a block past the 255th
+            nm, s0, s1 = tbl[0]
+            if s0:
+                c = s0[0][1]
+                long0 = [[s0[i % len(s0)][0], c, i + 1, 0.0] for i in range(260)]
+                yield dict(inp, tbl=[[nm, long0, s1]] + tbl[1:], qs=[[c, 1], [c, 255], [c, 256], [c, 257], [c, 260]])
 
     def signature(self, inp, obs):
         kind = "raises" if "err" in obs else "answers"
@@ -485,6 +673,37 @@ def gen_given(rng, tbl):
     return [pool[i] for i in rng.permutation(len(pool))]
 
 
+def wide_codec_case(rng):
+    """label-count boundaries of the np.uint8 codes: 255 / 256 / 257 / 300 distinct labels (given + present), laid out
+    over one or two samples so that an overflow leaves earlier strands already encoded."""
+    n = int(rng.choice([255, 256, 257, 258]))
+    labs = [f"L{i}" for i in range(n)]
+    r = rng.random()
+    if r < 0.4:
+        given = None
+    elif r < 0.6:
+        given = [labs[2], labs[0], labs[n - 1]]
+    elif r < 0.8:
+        # unused given labels take the low codes: the table's labels start at len(given)
+        k = int(rng.choice([1, 250, 254, 255, 256, 300]))
+        given = [f"G{i}" for i in range(k)]
+        m = [x for x in (1, 2, 255 - k, 256 - k, 257 - k) if 1 <= x <= n]
+        labs = labs[: int(rng.choice(m))]
+    else:
+        given = list(reversed(labs))   # every label given: code of labs[i] is n-1-i
+    cuts = sorted(int(c) for c in rng.choice(np.arange(1, max(2, len(labs))), size=3))
+    parts = [labs[: cuts[0]], labs[cuts[0]: cuts[1]], labs[cuts[1]: cuts[2]], labs[cuts[2]:]]
+    parts = [pt if pt else [labs[0]] for pt in parts]
+    strands = [[[lab, "1", i + 1, 0.0] for i, lab in enumerate(pt)] for pt in parts]
+    if rng.random() < 0.5:
+        tbl = [["s", strands[0] + [[labs[0], "1", len(strands[0]) + 5, 0.5]], strands[1]], ["t", strands[2], strands[3]]]
+    else:
+        whole = [[lab, "1", i + 1, 0.0] for i, lab in enumerate(labs)]
+        tbl = [["s", whole, strands[0]]]
+    qs = [["1", 1], ["1", 2], ["1", len(strands[0])]]
+    return {"tbl": tbl, "given": given, "qs": qs, "req": None, "via_file": False}
+
+
 class Codec(Relation):
     name = "codec"
     coq_module = "C05_Check"
@@ -501,8 +720,12 @@ class Codec(Relation):
         out = []
         for _ in range(n):
             tbl, chroms = gen_table(rng, malformed=0.06 if rng.random() < 0.2 else 0.0)
+            if rng.random() < 0.04:
+                tbl = shuffle_strand(rng, tbl)
             out.append({"tbl": tbl, "given": gen_given(rng, tbl), "qs": gen_queries(rng, tbl, chroms),
                         "req": gen_request(rng, tbl), "via_file": bool(rng.random() < 0.3)})
+        for _ in range(max(2, n // 200) if tier == "quick" else 24):
+            out.append(wide_codec_case(rng))
         return out
 
     def exhaustive(self, tier):
@@ -529,16 +752,30 @@ class Codec(Relation):
             bp = build_bp(inp["tbl"], d, via_file=inp.get("via_file", False))
             given = None if inp["given"] is None else tuple(inp["given"])
             obs = {}
+            failed = False
             try:
                 bp.encode(labels=given)
                 obs["enc"] = {"ok": {"data": self._data(bp), "labels": [[str(k), int(v)] for k, v in bp.labels.items()]}}
             except Exception as e:  # noqa
+                failed = True
                 obs["enc"] = {"err": err_kind(e)}
+                if isinstance(e, OverflowError):
+                    # np.uint8 cannot hold the code: the strands before the failing one are already encoded
+                    obs["part"] = self._data(bp) if bp.labels is None else None
+                    if obs["part"] is None:
+                        obs["enc"] = {"err": 97}
             try:
                 arr = bp.population_array(variants_array(inp["qs"]), samples=None if inp["req"] is None else tuple(inp["req"]))
-                obs["arr"] = {"ok": [[[int(x) for x in c] for c in row] for row in arr.tolist()], "dtype": str(arr.dtype)}
+                cells = arr.tolist()
+                if arr.dtype.kind != "U":
+                    cells = [[[int(x) for x in c] for c in row] for row in cells]
+                obs["arr"] = {"ok": cells, "dtype": str(arr.dtype)}
             except Exception as e:  # noqa
                 obs["arr"] = {"err": err_kind(e)}
+            if failed:
+                # the object is half encoded with labels None: the remaining steps are not run (model: E_Skip)
+                obs["again"] = obs["rec"] = obs["rec_again"] = {"err": 98}
+                return obs
             try:
                 bp.encode(labels=given)
                 obs["again"] = {"ok": 0}
@@ -569,9 +806,13 @@ class Codec(Relation):
             obs = {x: {"err": k} for x in ("enc", "arr", "again", "rec", "rec_again")}
         enc = L.res(obs["enc"], lambda o: f"({table_term(o['data'], it, cmi, nm)}, "
                                           f"{L.lst(o['labels'], lambda kv: f'({L.z(it(kv[0]))}, {L.z(kv[1])})')})")
-        arr = L.res(obs["arr"], lambda a: arr_term(a, int))
+        # cells of an encoded object are codes; of an object left with labels None they are strings: labels, or the
+        # decimal rendering of the codes of the strands a failed encode had already replaced
+        cell = lambda x: int(x) if isinstance(x, int) or str(x).isdigit() else it(x)
+        arr = L.res(obs["arr"], lambda a: arr_term(a, cell))
         rec = L.res(obs["rec"], lambda t: table_term(t, it, cmi, nm))
-        return (f"(mke {tbl} {given} {vs} {req} {enc} {arr} {L.res(obs['again'], L.z)} {rec} "
+        part = L.opt(obs.get("part"), lambda t: table_term(t, it, cmi, nm))
+        return (f"(mke {tbl} {given} {vs} {req} {enc} {part} {arr} {L.res(obs['again'], L.z)} {rec} "
                 f"{L.res(obs['rec_again'], L.z)})")
 
     def nontrivial(self, inp, obs):
@@ -595,7 +836,11 @@ class Codec(Relation):
             out = ["given:superset"]
         else:
             out = ["given:partial"]
-        out.append(f"labels={len(labs)}")
+        out.append(f"labels={len(labs)}" if len(labs) < 200 else f"labels+given={len(set(labs) | set(g or []))}")
+        if isinstance(obs, dict) and obs.get("enc", {}).get("err") == 7:
+            out.append("encode-overflow")
+        if not ascending_table(inp["tbl"]):
+            out.append("tbl:non-ascending")
         if any(not s0 or not s1 for _, s0, s1 in inp["tbl"]):
             out.append("tbl:empty-strand")
         if inp.get("via_file"):
@@ -615,9 +860,15 @@ class Codec(Relation):
         labs = sorted({b[0] for _, s0, s1 in inp["tbl"] for b in s0 + s1})
         for g in itertools.islice(itertools.permutations(labs), 24):
             yield dict(inp, given=list(g))
+        for n in (256, 257):  # the label-count boundary of np.uint8
+            wl = [f"L{i}" for i in range(n)]
+            yield dict(inp, tbl=[["w", [[l, "1", i + 1, 0.0] for i, l in enumerate(wl[:-1])], [[wl[-1], "1", 5, 0.0]]]],
+                       given=None, qs=[["1", 1], ["1", 5]], req=None)
 
     def signature(self, inp, obs):
         rec = obs.get("rec", {})
+        if "err" in obs.get("enc", {}):
+            return f"codec encode raises kind={obs['enc']['err']} given={'none' if inp['given'] is None else 'list'}"
         what = "recode raises" if "err" in rec else "encode/recode/query"
         return f"codec {what} given={'none' if inp['given'] is None else 'list'}"
 
@@ -800,7 +1051,7 @@ class Read(Relation):
         if "ok" not in obs and "err" not in obs:
             obs = {"err": obs.get("kind", 99)}
         samples = L.opt(inp["samples"], lambda s: L.lst(s, chars))
-        return (f"(mkr {lines_term(inp['lines'])} {samples} {ptab_term(inp['lines'])} "
+        return (f"(mkr {L.b(STRICT_FIELD_WIDTH)} {lines_term(inp['lines'])} {samples} {ptab_term(inp['lines'])} "
                 f"{L.res(obs, ctable_term)})")
 
     def nontrivial(self, inp, obs):
@@ -931,7 +1182,7 @@ class Write(Relation):
         fint = L.lst(ints, lambda v: f"({L.z(v)}, {chars(str(np.uint32(v)))})")
         fflt = L.lst(flts, lambda v: f"({L.z(v)}, {chars(str(np.float64(bits_f(v))))})")
         written = obs["lines"].get("ok", [])
-        return (f"(mkw {ctable_term(inp['tbl'])} {fint} {fflt} {ptab_term(written)} "
+        return (f"(mkw {L.b(STRICT_FIELD_WIDTH)} {ctable_term(inp['tbl'])} {fint} {fflt} {ptab_term(written)} "
                 f"{L.res(obs['lines'], lines_term)} {L.res(obs['reread'], ctable_term)})")
 
     def nontrivial(self, inp, obs):
@@ -970,18 +1221,202 @@ class Write(Relation):
         return "write/read round trip"
 
 
-RELATIONS = [Find(), Lookup(), Codec(), Read(), Write()]
+# ---------------------------------------------------------------------------
+# a file with full-length strings, read and queried
+
+
+def gen_ftable(rng, kind):
+    """[name, strand1, strand2] with blocks [label, chrom, bp, cM]; kind: 'plain' (labels <= 6, chromosomes <= 10
+    characters), 'long-label', 'long-chrom' (one name of more than 10 characters), 'collide' (two chromosome names
+    sharing their first 10 characters), 'bp-overflow' (a position uint32 cannot hold)."""
+    n = int(rng.integers(1, 4))
+    names = [NAMES[i] for i in rng.choice(len(NAMES), size=n, replace=False)]
+    if kind == "collide":
+        chroms = [LONG_CHROMS[0], LONG_CHROMS[1]] if rng.random() < 0.7 else [LONG_CHROMS[4], LONG_CHROMS[5]]
+    elif kind == "long-chrom":
+        chroms = [str(rng.choice(LONG_CHROMS[:5]))] + ([str(rng.choice(CHROMS))] if rng.random() < 0.5 else [])
+    else:
+        k = int(rng.integers(1, 3))
+        chroms = [CHROMS[i] for i in sorted(rng.choice(len(CHROMS), size=k, replace=False).tolist())]
+        if rng.random() < 0.15:
+            chroms[0] = LONG_CHROMS[5]  # exactly 10 characters
+    labels = LABELS + (LONG_LABELS if kind == "long-label" else [])
+    tbl = []
+    for nm in names:
+        st = []
+        for t in range(2):
+            blocks = []
+            for c in chroms:
+                k = int(rng.integers(1, 4))
+                ends = sorted(set(int(e) for e in rng.choice(GRID, size=k)))
+                if rng.random() < 0.5:
+                    ends.append(int(rng.choice(BIG[:2])))
+                for e in ends:
+                    blocks.append([str(rng.choice(labels)), c, e, float(rng.choice(CMS[:6]))])
+            st.append(blocks)
+        tbl.append([nm, st[0], st[1]])
+    if kind == "long-label":
+        tbl[0][1][0][0] = str(rng.choice(LONG_LABELS))
+    if kind == "bp-overflow":
+        tbl[0][1][-1][2] = 2**32 + int(rng.integers(0, 2))
+    return tbl, chroms
+
+
+def fl_kind(tbl):
+    chroms = {b[1] for s_ in tbl for st in s_[1:] for b in st}
+    if any(b[2] > 2**32 - 1 for s_ in tbl for st in s_[1:] for b in st):
+        return "bp-overflow"
+    if any(len(b[0]) > 6 for s_ in tbl for st in s_[1:] for b in st):
+        return "long-label"
+    if any(len(c) > 10 for c in chroms):
+        return "collide" if len({c[:10] for c in chroms}) < len(chroms) else "long-chrom"
+    return "plain"
+
+
+class FLookup(Relation):
+    """Breakpoints.read of a harness-written file whose strings have their full length, then population_array: labels
+    and chromosome names are characters on both sides, the reader's field widths are inside the model."""
+
+    name = "flookup"
+    coq_module = "C05_Check"
+    coq_check = "check_flookup"
+    coq_case_type = "flcase"
+    coq_model = "model_flookup"
+    coq_imports = ["Tracts", "BpText", "C05_Model"]
+    budget = {"quick": 90, "thorough": 1500}
+    max_cases_per_shard = 45
+    anchors = [("haptools/data/breakpoints.py", "Breakpoints.__iter__"),
+               ("haptools/data/breakpoints.py", "Breakpoints.read"),
+               ("haptools/data/breakpoints.py", "Breakpoints.population_array"),
+               ("haptools/data/breakpoints.py", "Breakpoints._find_blocks")]
+
+    def generate(self, rng, n, tier):
+        out = []
+        for _ in range(n):
+            r = rng.random()
+            kind = ("plain" if r < 0.55 else "long-label" if r < 0.65 else "long-chrom" if r < 0.78
+                    else "collide" if r < 0.95 else "bp-overflow")
+            tbl, chroms = gen_ftable(rng, kind)
+            qs = gen_queries(rng, tbl, chroms)
+            if not qs:
+                qs = [[chroms[0], 5]]
+            out.append({"tbl": tbl, "qs": qs, "req": gen_request(rng, tbl),
+                        "qwidth": "U10" if rng.random() < 0.8 else "U32"})
+        return out
+
+    def exhaustive(self, tier):
+        # two contigs sharing their first 10 characters x every interleaving of three ends x every position
+        out = []
+        a, b = "ABCDEFGHIJK", "ABCDEFGHIJL"
+        for ends in itertools.permutations([2, 4, 6]):
+            for cs in itertools.product([a, b], repeat=3):
+                if list(cs) != sorted(cs):
+                    continue
+                s0 = [[lab, c, e, 0.5] for lab, c, e in zip("XYZ", cs, ends)]
+                tbl = [["s", s0, [["W", a, 9, 0.0], ["W", b, 9, 0.0]]]]
+                for w in ("U10", "U32"):
+                    out.append({"tbl": tbl, "qs": [[c, p] for c in (a, b) for p in range(1, 8)], "req": None, "qwidth": w})
+        return out
+
+    @staticmethod
+    def file_lines(tbl):
+        lines = []
+        for nm, s0, s1 in tbl:
+            for t, st in ((1, s0), (2, s1)):
+                lines.append([f"{nm}_{t}"])
+                for b in st:
+                    lines.append([b[0], b[1], str(int(b[2])), repr(float(b[3]))])
+        return lines
+
+    def run_impl(self, inp):
+        from haptools.data import Breakpoints
+
+        d = tempfile.mkdtemp(prefix="hv_c05_")
+        try:
+            path = os.path.join(d, "in.bp")
+            write_lines(self.file_lines(inp["tbl"]), path)
+            V = variants_array(inp["qs"], "uint32", inp.get("qwidth", "U10"))
+            obs = {"seen": [[str(c), int(p)] for c, p in V.tolist()]}
+            try:
+                bp = Breakpoints(path, log=quiet_log())
+                bp.read()
+                arr = bp.population_array(V, samples=None if inp["req"] is None else tuple(inp["req"]))
+                obs["ok"] = arr.tolist()
+            except Exception as e:  # noqa
+                obs["err"] = err_kind(e)
+                obs["msg"] = str(e)[:120]
+            return obs
+        finally:
+            shutil.rmtree(d, ignore_errors=True)
+
+    def encode(self, inp, obs):
+        tbl = [[nm, [[b[0], b[1], int(b[2]), fbits(b[3])] for b in s0], [[b[0], b[1], int(b[2]), fbits(b[3])] for b in s1]]
+               for nm, s0, s1 in inp["tbl"]]
+        ints, flts = [], []
+        for s_ in tbl:
+            for st in s_[1:]:
+                for b in st:
+                    if b[2] not in ints:
+                        ints.append(b[2])
+                    if b[3] not in flts:
+                        flts.append(b[3])
+        fint = L.lst(ints, lambda v: f"({L.z(v)}, {chars(str(int(v)))})")
+        fflt = L.lst(flts, lambda v: f"({L.z(v)}, {chars(repr(bits_f(v)))})")
+        seen = obs.get("seen") if isinstance(obs, dict) else None
+        if seen is None:
+            seen = [[q[0][:10], q[1]] for q in inp["qs"]]
+        qs = L.lst(seen, lambda q: f"({chars(q[0])}, {L.z(q[1])})")
+        req = L.opt(inp["req"], lambda r: L.lst(r, chars))
+        if isinstance(obs, dict) and "ok" in obs:
+            o = "(Ok " + L.lst(obs["ok"], lambda row: L.lst(row, lambda c: f"({chars(c[0])}, {chars(c[1])})")) + ")"
+        else:
+            o = f"(Err {L.z(obs.get('err', obs.get('kind', 99)))})"
+        return (f"(mkfl {L.b(STRICT_FIELD_WIDTH)} {ctable_term(tbl)} {fint} {fflt} {ptab_term(self.file_lines(inp['tbl']))} "
+                f"{qs} {req} {o})")
+
+    def nontrivial(self, inp, obs):
+        return touches_boundary(inp["tbl"], inp["qs"])
+
+    def classes(self, inp, obs):
+        out = ["file:" + fl_kind(inp["tbl"]), "query-array:" + inp.get("qwidth", "U10")]
+        out += [c for c in lookup_classes(inp["tbl"], inp["qs"], inp["req"]) if c.startswith(("q:", "req:"))]
+        out.append("answers" if isinstance(obs, dict) and "ok" in obs else f"err{obs.get('err', obs.get('kind')) if isinstance(obs, dict) else '?'}")
+        return out
+
+    def shrink(self, inp):
+        yield from Lookup.shrink(self, inp)
+        if inp.get("qwidth", "U10") != "U10":
+            yield dict(inp, qwidth="U10")
+
+    def mutate(self, inp, rng):
+        yield from Lookup.mutate(self, inp, rng)
+
+    def signature(self, inp, obs):
+        kind = "raises" if "err" in obs else "answers"
+        k = fl_kind(inp["tbl"])
+        return (f"file lookup {kind} chromosome-name-longer-than-10={k in ('collide', 'long-chrom')} "
+                f"names-collide-after-10={k == 'collide'} label-longer-than-6={k == 'long-label'}")
+
+
+RELATIONS = [Find(), Lookup(), Codec(), Read(), Write(), FLookup()]
 
 LEVEL_TEXT = (
     "Coq theorems over all block tables, query lists, sample requests, label orders and token files (no size bound) about "
-    "a Gallina model of Breakpoints._find_blocks/population_array/encode/recode/__iter__/write; the model is tied to the "
-    "code on every run by evaluating, inside Coq, model-vs-implementation agreement and the property's finite checker "
-    "(written with label_at, not with the model) on generated cases incl. every block end, end+1, 1 and beyond-last query."
+    "a Gallina model of Breakpoints._find_blocks/population_array/encode/recode/__iter__/write, including numpy's "
+    "bisection (proved equal to the first-end->=-position scan on ascending ends), the np.uint8 code width (encode raises "
+    "OverflowError beyond 256 labels, proved the only failure), the 'U6'/'U10' field widths of the reader and the "
+    "composition write -> read -> population_array on the strings of the table; the model is tied to the code on every "
+    "run by evaluating, inside Coq, model-vs-implementation agreement and the property's finite checker (written with "
+    "label_at, not with the model) on generated cases incl. every block end, end+1, 1, beyond-last query and the width "
+    "boundaries 255|256|257 blocks / labels and 2^31, 2^32 positions."
 )
 LEVEL_NOTE = (
-    "Trusted: Coq kernel/vm_compute; the hand-written model (validated differentially); np.searchsorted(left) on ascending "
-    "input = first index with end >= p; numpy's str<->uint32/float64 codecs and csv tab splitting (Section variables with "
-    "round-trip hypotheses in bp_roundtrip; recorded tables in the correspondence). Out of the codec's domain and only "
-    "compared for agreement: repeated labels given to encode, strands without blocks (recode raises ValueError there)."
+    "Trusted: Coq kernel/vm_compute; the hand-written model (validated differentially, np.searchsorted's bisection "
+    "included); numpy's str<->uint32/float64 codecs and csv tab splitting (Section variables with round-trip hypotheses in "
+    "bp_roundtrip; recorded tables in the correspondence). Out of the codec's domain and only compared for agreement: "
+    "repeated labels given to encode (C05_encode_repeated_given_collides), strands without blocks (recode raises ValueError "
+    "there), tables whose block ends are not ascending. Open finding (switch STRICT_FIELD_WIDTH, off): the unrepaired "
+    "reader truncates chromosome names to 10 characters silently; until fixes/C05_field_width.patch is applied, files with "
+    "longer chromosome names are compared with the (truncating) model only."
 )
 TECHNIQUE = "Coq proof by induction on block/variant/line lists + vm_compute-evaluated correspondence against the implementation"
